@@ -1,6 +1,6 @@
 //! C09 — lazy tables are coherent: len, get, iteration and emptiness agree.
 use crate::common::*;
-use crate::conv;
+use crate::conv::{self, FieldEq};
 use crate::with_endian;
 use elf::dynamic::Dyn;
 use elf::gnu_symver::VersionIndex;
@@ -154,6 +154,22 @@ fn run_script<E: EndianParse, P: ParseAt + PartialEq + Debug>(e: E, class: Class
                 }
                 if t().iter().count() != n {
                     return Err(ctx("iter().count() disagrees with len()".to_string()));
+                }
+                // Iterator::size_hint's contract: lower <= items still to come <= upper, on fresh and advanced iterators
+                let mut part = t().iter();
+                let mut left = n;
+                loop {
+                    let (lo, hi) = part.size_hint();
+                    if lo > left || hi.map(|h| h < left).unwrap_or(false) {
+                        return Err(ctx(format!("size_hint() = ({}, {:?}) on an iterator that will yield {} more items", lo, hi, left)));
+                    }
+                    if left == 0 || left + skip < n {
+                        break;
+                    }
+                    if part.next().is_none() {
+                        return Err(ctx(format!("iterator ended with {} items still expected", left)));
+                    }
+                    left -= 1;
                 }
                 match t().iter().last() {
                     Some(v) => {
@@ -315,18 +331,23 @@ fn oracle(case: &[u8], obs: &mut Obs) -> Result<(), String> {
     }
     script.push(Op::Iter);
     script.push(Op::Get(n));
+    // the table at an arbitrary address residue
+    let lead = c.below(9) as usize;
+    let mut shifted = vec![0xc3u8; lead];
+    shifted.extend_from_slice(&bytes);
+    let bytes = &shifted[lead..];
     let class = class_of(enc);
     let spec: u8 = if use_any { specs_for(enc.le)[1] } else { specs_for(enc.le)[0] };
     let r = with_endian!(spec, |e| match t {
-        0 => run_script::<_, SectionHeader>(e, class, &bytes, n, &|i, v| *v == shd[i], &script, TYPES[t], obs),
-        1 => run_script::<_, ProgramHeader>(e, class, &bytes, n, &|i, v| *v == phd[i], &script, TYPES[t], obs),
-        2 => run_script::<_, Symbol>(e, class, &bytes, n, &|i, v| *v == syms[i], &script, TYPES[t], obs),
+        0 => run_script::<_, SectionHeader>(e, class, bytes, n, &|i, v| v.field_eq(&shd[i]), &script, TYPES[t], obs),
+        1 => run_script::<_, ProgramHeader>(e, class, &bytes, n, &|i, v| v.field_eq(&phd[i]), &script, TYPES[t], obs),
+        2 => run_script::<_, Symbol>(e, class, &bytes, n, &|i, v| v.field_eq(&syms[i]), &script, TYPES[t], obs),
         3 => run_script::<_, Dyn>(e, class, &bytes, n, &|i, v| conv::dyn_eq(v, &dyns[i], enc), &script, TYPES[t], obs),
         4 => run_script::<_, VersionIndex>(e, class, &bytes, n, &|i, v| v.0 as u64 == vals[i], &script, TYPES[t], obs),
         5 => run_script::<_, u32>(e, class, &bytes, n, &|i, v| *v as u64 == vals[i], &script, TYPES[t], obs),
         6 => run_script::<_, u64>(e, class, &bytes, n, &|i, v| *v == vals[i], &script, TYPES[t], obs),
-        7 => run_script::<_, Rel>(e, class, &bytes, n, &|i, v| *v == rels[i], &script, TYPES[t], obs),
-        _ => run_script::<_, Rela>(e, class, &bytes, n, &|i, v| *v == relas[i], &script, TYPES[t], obs),
+        7 => run_script::<_, Rel>(e, class, &bytes, n, &|i, v| v.field_eq(&rels[i]), &script, TYPES[t], obs),
+        _ => run_script::<_, Rela>(e, class, &bytes, n, &|i, v| v.field_eq(&relas[i]), &script, TYPES[t], obs),
     });
     r.map_err(|s| format!("{} {} : {}", enc.name(), SPEC_NAMES[spec as usize], s))?;
     obs.label_if(residue != 0, "ragged");
